@@ -30,7 +30,7 @@ prop("C09", "exploration",
      "(fragment sizes 1..n, Pending at any poll); the chunk list must equal the single-read chunk list, tile the input, respect min/max, and equal the "
      "reference chunker that hashes every trailing window from its closed form. Non-trivial: the input produced at least two chunks; distinct: by trace hash "
      "(every read, its size, every Pending) combined with the chunk count.",
-     {"quick": {"runs": 64000, "max_secs": 100}, "thorough": {"runs": 1600000, "max_secs": 900}},
+     {"quick": {"runs": 64000, "max_secs": 150}, "thorough": {"runs": 1600000, "max_secs": 900}},
      ["the BuzHash table/seed and RollSum constants are part of the definition (copied into the reference; pinned by bitar/tests/chunking.rs)"])
 
 prop("C01", "exploration",
@@ -40,7 +40,7 @@ prop("C01", "exploration",
      "drawn byte count on stdin / the library reader) and compress must not report success; one in fourteen fails a write of compress (ENOSPC/EIO/EDQUOT on the temporary file or the archive, biased to the last write): success only with a complete archive. One file input in twelve is a block device (stat size 0). Otherwise no faults. Oracle: every command succeeds; the independent decoder reads the archive, finds the true size and "
      "Blake2b-512 and unpacks it to the source; the clone output equals the source. Non-trivial: the source has at least two chunks; distinct: by trace hash (all scheduler decisions, reads, "
      "requests) combined with chunk count, writer and cloner.",
-     {"quick": {"runs": 12000, "max_secs": 100}, "thorough": {"runs": 700000, "max_secs": 1200}},
+     {"quick": {"runs": 12000, "max_secs": 150}, "thorough": {"runs": 700000, "max_secs": 1200}},
      ["bitar's temporary_file_override is never used (it cannot work: DESIGN.md O1)", "the anonymous temp file of create_archive is opened by the tempfile crate through raw syscalls and is not seen by the seam"])
 
 FAM = ("a drawn archive (as C01) plus drawn seeds (0..3: edits of the source -- insert/delete/replace/move/duplicate/truncate/append/swap --, the source itself, empty, unrelated, "
@@ -50,7 +50,7 @@ FAM = ("a drawn archive (as C01) plus drawn seeds (0..3: edits of the source -- 
 prop("C02", "exploration",
      FAM + "Oracle: the clone succeeds and the output is byte-identical to the source (regular files also have the source's length). Truncated-hash collisions between different chunks (only possible for hash length < 8) are recognised and exempted. "
      "Non-trivial: at least one seed, at least two chunks, and the seeds supply some but not all chunks; distinct: trace hash + scenario shape.",
-     {"quick": {"runs": 12000, "max_secs": 100}, "thorough": {"runs": 600000, "max_secs": 1200}},
+     {"quick": {"runs": 12000, "max_secs": 150}, "thorough": {"runs": 600000, "max_secs": 1200}},
      ["--verify-output is not combined with a block device larger than the source (it always reports a mismatch there: DESIGN.md O2)"])
 prop("C03", "exploration",
      "two families, drawn 50/50. (a) " + FAM + "always with --seed-output / reorder_in_place on a prior output obtained by editing or permuting the source. "
@@ -58,29 +58,29 @@ prop("C03", "exploration",
      "the prior output a sequence of 0..11 identities or garbage blobs (indexed or not), hash length in {4,8,16,33,64}; afterwards exactly the chunks the output still asks for are fed. "
      "Oracle: no panic/error; output == source (file length too for regular files); nothing left missing; a chunk present in the prior output and needed by the source is never left to be fetched. "
      "Non-trivial: a non-empty prior output, at least one write and (b) at least one reusable identity; distinct: (a) trace hash + shape, (b) the layout itself.",
-     {"quick": {"runs": 30000, "max_secs": 100}, "thorough": {"runs": 3000000, "max_secs": 1500}},
+     {"quick": {"runs": 30000, "max_secs": 150}, "thorough": {"runs": 3000000, "max_secs": 1500}},
      ["the during-run 'not destroyed before copied' clause is decided through its consequence: a destroyed reusable chunk is copied as garbage (in-place copies are not re-hashed) and shows in the final comparison"],
      exhaustive_note="family (b) is sampled, biased small; the evidence counts distinct layouts reached")
 prop("C06", "exploration",
      FAM + "Observed: every byte range requested from the archive (HTTP: the scripted server's log; local CLI: read(2) on the archive fd at the syscall seam; local library: reads of the archive SimFile). "
      "Oracle: the multiset of bytes read equals the header region once plus the stored range of every chunk that the reference chunker does not find in a seed or in the prior output (when it is the seed), each once; in particular no byte of an available chunk is read. "
      "Non-trivial: at least two chunks and a seed or in-place prior output; distinct: trace hash + shape.",
-     {"quick": {"runs": 12000, "max_secs": 100}, "thorough": {"runs": 600000, "max_secs": 1200}})
+     {"quick": {"runs": 12000, "max_secs": 150}, "thorough": {"runs": 600000, "max_secs": 1200}})
 prop("C13", "exploration",
      FAM + "Observed: every write to the output as (position, bytes) -- lseek/write on the output fd at the syscall seam, or the SimFile log; writes that continue where the previous one ended are coalesced. "
      "Oracle: every extent tiles exactly into source chunk locations and carries those chunks' bytes; no location is written twice; no location that the reference scan of the prior output found already holding the right chunk is written; nothing at or beyond the source length. "
      "Non-trivial: at least two chunks and a seed or in-place prior output; distinct: trace hash + shape (incl. number of writes).",
-     {"quick": {"runs": 12000, "max_secs": 100}, "thorough": {"runs": 600000, "max_secs": 1200}})
+     {"quick": {"runs": 12000, "max_secs": 150}, "thorough": {"runs": 600000, "max_secs": 1200}})
 prop("C11", "exploration",
      "C01's compress runs (CLI from file / stdin, library; all schedules; metadata maps incl. empty and binary values); one run in fourteen the input file grows while compress reads it (another process appends at a scheduled moment) and the archive is held against what was actually read. Oracle: the independent decoder checks magic, LE dictionary size, dictionary decodes, chunk-data offset == header length, "
      "Blake2b-512 trailer, file length == end of the last stored chunk, descriptors == the unique chunks of the reference chunker's chunk list in order of first occurrence (hash prefix, size), stored back-to-back from 0, stored size <= source size, "
      "every payload decodes (raw iff sizes equal) to a chunk with that hash, rebuild order == the chunk sequence, recorded size/checksum/parameters/hash length/compression/metadata == requested; bitar's Archive accessors and bita info --metadata-key report the same. "
      "Non-trivial: at least two chunks; distinct: trace hash + (chunks, unique chunks, metadata entries).",
-     {"quick": {"runs": 12000, "max_secs": 100}, "thorough": {"runs": 700000, "max_secs": 1200}})
+     {"quick": {"runs": 12000, "max_secs": 150}, "thorough": {"runs": 700000, "max_secs": 1200}})
 prop("C12", "exploration",
      "one (source, options) scenario is compressed 2..4 times by the CLI (file or stdin drawn each time) and 2..3 times by the library, each under an independently drawn pool schedule, buffered-chunks value in {1,2,3,8,64}, "
      "verbosity and input fragmentation; a third of the library runs write to a tokio::fs::File and are judged by what is at the path when create_archive returns; one CLI run in five finds a stale, longer temporary chunk file of a killed earlier run under the name the first run was seen to use; one scenario in 25 keeps a chunk of hundreds of KiB open at the end of the input. Oracle: all archives of a writer are byte-identical. Non-trivial: the source is longer than one average chunk; distinct: trace hash + archive size + run counts.",
-     {"quick": {"runs": 2500, "max_secs": 100}, "thorough": {"runs": 200000, "max_secs": 1200}})
+     {"quick": {"runs": 2500, "max_secs": 150}, "thorough": {"runs": 200000, "max_secs": 1200}})
 
 prop("C05", "fault_enumeration",
      "per run one clone scenario of the C02/C03 family through bita clone at the syscall seam (seeds, prior output, regular file or faked block device, local or HTTP). An uninterrupted execution counts W = write(2) calls on the output. "
@@ -88,14 +88,14 @@ prop("C05", "fault_enumeration",
      "user-space buffers and pending background writes are lost, the file as it is is the durable state; then 0..2 further crashed re-runs with --seed-output; then a fault-free, step-bounded bita clone --seed-output that must succeed and leave exactly the source. "
      "Error family (1/3): the k-th write fails with ENOSPC/EIO, nothing or a short prefix written, INCLUDING the last write, with and without --verify-output: the run must not exit 0 unless the output is complete; the re-run completes. Legal short writes and EINTR must change nothing. "
      "Non-trivial: at least one fault fired and W >= 3; distinct: trace hash + (W, crash points, family, device, in-place).",
-     {"quick": {"runs": 1200, "max_secs": 100}, "thorough": {"runs": 60000, "max_secs": 1500}},
+     {"quick": {"runs": 1200, "max_secs": 150}, "thorough": {"runs": 60000, "max_secs": 1500}},
      ["crash model: process death, not power loss -- what write(2) returned for survives, tokio's user-space buffer and not-yet-run background writes do not; bita never calls fsync and the property's quantifier is exactly 'k-th write not performed, fully performed or torn after any prefix'",
       "tear offsets are drawn from five classes per crash point rather than every byte"])
 prop("C07", "exploration",
      "2/3 of runs: an archive (library writer) and a drawn subset of its descriptors as the ChunkIndex handed to Archive::chunk_stream over the simulated HTTP server -- uniform over all 2^n subsets for n <= 12 descriptors, density-driven (1/16 .. 16/16) above; "
      "1/3: subsets induced by drawn seeds / prior output through bita clone over HTTP. Body fragmentation and delays drawn, no failures. Oracle: the ordered list of Range header strings logged by the server equals 'bytes=0-13', the rest of the header, "
      "then exactly the maximal runs of stored-adjacent requested descriptors in descriptor order as 'bytes=<first>-<last>'. Non-trivial: at least two chunk-data requests and a proper subset; distinct: the subset pattern (or trace hash for clone runs).",
-     {"quick": {"runs": 12000, "max_secs": 100}, "thorough": {"runs": 600000, "max_secs": 1200}})
+     {"quick": {"runs": 12000, "max_secs": 150}, "thorough": {"runs": 600000, "max_secs": 1200}})
 prop("C08", "fault_enumeration",
      "a random content, a drawn list of 1..10 ranges (adjacent runs, gaps, unordered, repeated/overlapping; sizes 1 B .. 70 KB, up to 3 MiB in the thorough tier) read through read_chunks or read_at. "
      "Local: IoReader over a SimFile with drawn read fragmentation (1 byte .. whole), Pending at any poll (reads and seeks), early EOF at a drawn offset; a third of the readers have been used before (position anywhere), a sixth of the lists start at byte 0. HTTP: HttpReader against a server that is correct when it answers, with a failure script drawn per request "
@@ -103,21 +103,21 @@ prop("C08", "fault_enumeration",
      "Oracle over the recorded history: items are a prefix of the requested ranges' bytes in order, then at most one error, then nothing; a run with f <= R failures completes, f > R or an early EOF yields an error; "
      "every (re)request's Range starts at the first byte not yet delivered and ends at the run's end; retry delays elapse in virtual time; the run finishes within the step budget. "
      "Non-trivial: a retry was taken or at least two ranges; distinct: trace hash + (ranges, failures, fatal, single).",
-     {"quick": {"runs": 160000, "max_secs": 100}, "thorough": {"runs": 4000000, "max_secs": 1200}},
+     {"quick": {"runs": 160000, "max_secs": 150}, "thorough": {"runs": 4000000, "max_secs": 1200}},
      ["cut offsets are drawn per request (biased to the edges), not enumerated for every byte", "zero-length ranges belong to C15, no conforming archive has them"])
 prop("C14", "exploration",
      "the grid {output absent, regular file, block device >= source, block device < source} x {--force-create, --seed-output, neither} x {valid archive (with or without a matching --verify-header), random bytes, empty file, bit flip in the header, "
      "truncated header, --verify-header mismatch} x {local, HTTP} for clone, and {output absent, present} x {--force-create or not} for compress, is enumerated by a drawn cell index (148 cells; the evidence lists how often each refusal kind occurred); "
      "archive, prior content, schedules drawn; one clone in four has a --seed, which may be the existing output itself. Oracle for the four refusals the statement names: exit status non-zero; the output's bytes and length unchanged; no write / ftruncate / O_TRUNC on it at the syscall seam; for archive / header refusals the output path was never opened "
      "(hence not created). Cells that must proceed must succeed with a correct output. Non-trivial: every run; distinct: trace hash + cell.",
-     {"quick": {"runs": 12000, "max_secs": 100}, "thorough": {"runs": 400000, "max_secs": 1200}},
+     {"quick": {"runs": 12000, "max_secs": 150}, "thorough": {"runs": 400000, "max_secs": 1200}},
      ["header bit flips avoid the upper five bytes of the dictionary-size field (they make the reader attempt a petabyte allocation: C15's finding, fatal to a worker)"])
 prop("C16", "exploration",
      "2/3 of runs: bita clone in all modes of the clone family (plain, seed files, stdin seed, in place, local, HTTP, +-verify-output, existing output with --force-create, faked block device) observed at the syscall seam: "
      "(one in eight with the existing output also named as a --seed, under its own or another spelling; one in ten with a second hard link on the existing output; one in sixteen into a directory that does not exist; init_log runs before each command, so a log sink that opens a file is seen too) every open with O_WRONLY/O_RDWR/O_CREAT/O_TRUNC/O_APPEND names the output path, no unlink/rename/mkdir, no truncate of another file, and the listing (names, sizes, Blake2) of the sandbox changed only at the output path. "
      "1/3: bita compress (file / stdin, +-force, output names with and without extension, in a subdirectory, with bytes that are not valid UTF-8; one in five repeated with --force-create over a planted stale temporary file): only the archive and its '.tmp' sibling are opened for writing, only that temp file is removed, and a successful run leaves exactly one new file. "
      "Non-trivial: at least three file-system events; distinct: trace hash + shape.",
-     {"quick": {"runs": 8000, "max_secs": 100}, "thorough": {"runs": 400000, "max_secs": 1200}},
+     {"quick": {"runs": 8000, "max_secs": 150}, "thorough": {"runs": 400000, "max_secs": 1200}},
      ["files opened through raw syscalls (none in the CLI paths; the tempfile crate in bitar's library writer) would not be seen by the link-time seam"])
 
 prop("C04", "fault_enumeration",
@@ -127,7 +127,7 @@ prop("C04", "fault_enumeration",
      "a server answering one request with a flipped bit / an error page of the requested length / a short body, a server going silent mid-body with --http-timeout set, a server that serves the pinned archive for the first requests and another valid archive afterwards, a header re-encoded with one changed field and the file cut off inside the stored header checksum, the pinned checksum planted in (or removed from) the source-checksum field of a re-encoded header, --verify-header off by one bit, --verify-header right (control). "
      "Oracle: the clone does not exit 0, or the output equals the source; a change inside the header is never followed by success and (CLI) the output path is never opened; with --verify-header X success implies the real header checksum is X; "
      "StepBudget/Deadlock are violations, panics are counted and left to C15. Non-trivial: > 100 corruptions tried (A) / any corruption other than the control (B); distinct: trace hash + shape.",
-     {"quick": {"runs": 3000, "max_secs": 100}, "thorough": {"runs": 200000, "max_secs": 1500}},
+     {"quick": {"runs": 3000, "max_secs": 150}, "thorough": {"runs": 200000, "max_secs": 1500}},
      ["hash length >= 8 (the property's quantifier)", "header tamper with a recomputed checksum is only judged together with --verify-header (without it the archive is a valid description of another source)"],
      exhaustive_note="mode A is exhaustive per sampled small archive (the evidence counts archives enumerated exhaustively and corruptions tried)")
 prop("C17", "exploration",
@@ -135,7 +135,7 @@ prop("C17", "exploration",
      "stored chunks ascending / descending / permuted with no / some / all gaps, trailing bytes, per-chunk raw or compressed with the brotli / zstd / lzma crates (never compressed with stored size == source size), unknown protobuf fields at every level, "
      "packed / split-packed / unpacked rebuild order, explicit default values, hash length 4..64, zero chunks, foreign version strings, metadata, recorded compression levels bita would never write (0, 12, 2^32-ish), RollSum windows larger than the maximum chunk size; one run in forty a header-only archive declaring a source of many GiB. Oracle: bitar opens it and every accessor (incl. compressed_size, header_checksum, iter_source_chunks, metadata_value, build_source_index offsets) reports the encoder's inputs; then the whole clone family "
      "(CLI / library, local / HTTP, seeds, in place, block device) must succeed with output == source; over HTTP the requests are the maximal adjacent runs for this layout. Non-trivial: at least two unique chunks; distinct: the encoding choices + chunk count.",
-     {"quick": {"runs": 12000, "max_secs": 100}, "thorough": {"runs": 600000, "max_secs": 1200}},
+     {"quick": {"runs": 12000, "max_secs": 150}, "thorough": {"runs": 600000, "max_secs": 1200}},
      ["'conforming' = what header.rs' table and chunk_dictionary.proto (incl. its comments: descriptors in order of first occurrence) document; descriptor order is therefore not permuted, storage order is"])
 
 prop("C15", "exploration",
@@ -145,7 +145,7 @@ prop("C15", "exploration",
      "misbehaving servers (extra bytes: 1..100 B, 1 MiB, 100 MiB produced lazily; error page; empty body; Range ignored), on one request or all. Each input is inspected (bita info) and cloned plain, with a seed (the chunker runs on the attacker's parameters) and in place, locally and over HTTP, under drawn schedules. "
      "Oracle: every command ends in Success or a reported error; a panic (the worker is built with overflow checks), a dead worker (attributed to the run it had announced), an exhausted step / yield budget (unbounded work) or a single allocation above 64 MiB + 4 x the largest chunk or window size the header declares is a violation. "
      "Non-trivial: every run; distinct: the input kind + mutated fields + length.",
-     {"quick": {"runs": 12000, "max_secs": 100}, "thorough": {"runs": 600000, "max_secs": 1500}},
+     {"quick": {"runs": 12000, "max_secs": 150}, "thorough": {"runs": 600000, "max_secs": 1500}},
      ["declared chunk sizes are capped at 16 MiB by the generator so that what the format legitimately lets a reader allocate fits the sandbox",
       "allocations of 32 MiB and more are served by mmap(MAP_NORESERVE) in the worker so that a huge untouched reservation does not kill it; allocation failure itself cannot be injected (Rust aborts)",
       "arithmetic overflow on attacker data is counted as a defect in any profile: it is a panic here and silent wrap-around in release builds"])
